@@ -233,6 +233,17 @@ def judge(case, out, m):
     if 'panic' in out or out.get('outcome') == 'panic': return [('violation', 'panic: ' + str(out)[:160])]
     mm = m.get('model') if m else None
     k = case['kind']
+    served = out.get('served')
+    out = {key: x for key, x in out.items() if key != 'served'}
+    raw = unhx(case['input']) if 'input' in case else b''
+    if served is not None and 'refused' not in served and raw == raw.strip() and k in ('struct', 'iter'):
+        # the same header through a real request: the typed extractor in a handler's signature / req.headers.Cookies()
+        if k == 'iter':
+            if served.get('value') != out.get('pairs'): v.append(('violation', f'req.headers.Cookies() yields {str(served.get("value"))[:120]}, iter_cookies {str(out.get("pairs"))[:120]}'))
+        elif out.get('outcome') == 'ok':
+            if not served.get('ran') or served.get('value') != out.get('value'): v.append(('violation', f'{raw[:80]!r}: a handler declaring typed::header::Cookie<T> got {str(served)[:160]}, the header decodes to {str(out.get("value"))[:160]}'))
+        elif out.get('outcome') == 'err':
+            if served.get('ran') or not (400 <= served.get('status', 0) <= 499): v.append(('violation', f'{raw[:80]!r}: the header does not decode into T, but the handler declaring typed::header::Cookie<T> gave {str(served)[:160]}'))
     if k == 'struct':
         if case.get('jar'):
             want = jar_want(case)
